@@ -271,7 +271,12 @@ func (i ItemCollection) Equals(with Item) bool {
 			return nil
 		}
 		for _, it := range i {
-			if !w.Contains(it.GetLink()) {
+			var needle Item = it.GetLink()
+			if len(it.GetLink()) == 0 {
+				// NOTE(marius): members without an id can only be compared in full
+				needle = it
+			}
+			if !w.Contains(needle) {
 				result = false
 				return nil
 			}
